@@ -181,15 +181,27 @@ func (s *speller) line(text string, l zg.Line) {
 		return
 	}
 	k := l.K + "\x00" + text
-	if s.seen[k] {
+	if s.seen[k] || !spellSampled(text, 400) {
 		return
 	}
 	s.seen[k] = true
 	s.w.Emit(evSpell{"spell", hx.FromString(text), []zg.Line{l}})
 }
 
+// spellSampled: reading a rendering back through Present!Lex costs TLC time quadratic in its length (~1 s for a line of
+// 1000 characters: the names written with \DDD escapes); of the lines longer than 400 characters (whole files: 2000)
+// one in eight, chosen by a hash of the text, is sent back.  (This is the harness' self-check, not a verdict on the code.)
+func spellSampled(text string, limit int) bool {
+	if len(text) <= limit {
+		return true
+	}
+	h := fnv.New32a()
+	h.Write([]byte(text))
+	return h.Sum32()%8 == 0
+}
+
 func (s *speller) file(text []byte, ls []zg.Line) {
-	if s == nil || s.w == nil {
+	if s == nil || s.w == nil || !spellSampled(string(text), 2000) {
 		return
 	}
 	s.w.Emit(evSpell{"spell", hx.FromBytes(text), ls})
@@ -735,6 +747,17 @@ func replayText(i int, v *vec, sum *hx.Summary, evw *hx.Writer) bool {
 	return v.Ill != "" && !v.Odd
 }
 
+var errMsg = regexp.MustCompile(`dns: ([^:"]*)`)
+
+// errSlug: the message of a ParseError without its token and position, as part of a finding key
+func errSlug(text string) string {
+	m := errMsg.FindStringSubmatch(text)
+	if m == nil {
+		return "?"
+	}
+	return strings.ReplaceAll(strings.ToLower(strings.TrimSpace(m[1])), " ", "-")
+}
+
 // safety: what DESIGN 1.3 leaves to the harness.
 func safety(fam string, n int, o *zg.Observed, timedOut bool, c zg.RunCfg, chain bool, sum *hx.Summary, cs interface{}) {
 	switch {
@@ -760,7 +783,11 @@ func safety(fam string, n int, o *zg.Observed, timedOut bool, c zg.RunCfg, chain
 		case o.PELine == -1:
 			sum.Mis("zone/hostile:err-position-missing", fmt.Sprintf("ParseError carries no line:column: %q", o.ErrText), cs)
 		case o.PELine < 1:
-			sum.Mis("zone/hostile:err-line", fmt.Sprintf("ParseError line %d < 1: %q", o.PELine, o.ErrText), cs)
+			k := "zone/hostile:err-line"
+			if strings.HasPrefix(fam, "prefix:$") { // control entries: one class per directive and message
+				k += ":" + fam + ":" + errSlug(o.ErrText)
+			}
+			sum.Mis(k, fmt.Sprintf("ParseError line %d < 1: %q", o.PELine, o.ErrText), cs)
 		case c.File != "" && o.PEFile == "":
 			sum.Mis("zone/hostile:err-file", fmt.Sprintf("ParseError does not name a file: %q", o.ErrText), cs)
 		}
